@@ -281,3 +281,8 @@ CONSTANT_WITNESSES = [
     ("tuple", [1, [2.5, None], {"int": "-99999999999999999999"}]), ("empty tuple", []),
     ("bool", True), ("none", None), ("small int", -7), ("float", -0.0), ("plain string", "x"),
 ]
+# every tagged shape can also sit inside a tuple or a frozenset constant (`a[..., 0]` loads the tuple (Ellipsis, 0); `x in {b"a", 2 ** 70}`)
+_LEAVES = [w for w in CONSTANT_WITNESSES if w[0] in ("huge negative int", "nan", "-inf", "string with a lone surrogate", "bytes", "ellipsis", "complex with nan / inf",
+                                                     "bool", "none", "small int", "float", "plain string", "empty tuple", "empty frozenset")]
+CONSTANT_WITNESSES += [(f"tuple holding {n} / another tuple holding it", [d, [d]]) for n, d in _LEAVES]
+CONSTANT_WITNESSES += [(f"frozenset holding {n} / a tuple holding it", {"frozenset": [d, [d]]}) for n, d in _LEAVES]
